@@ -1,15 +1,20 @@
 ---------------------------- MODULE QuadtreeGen ----------------------------
 (* Behaviour generator for replay (spec -> code): every history of MaxOps operations of the           *)
-(* implementation-shaped quadtree spec, printed as one JSON document per history with the result the    *)
-(* spec predicts for each operation.  The harness replays each history into a real quadtree.Quadtree.  *)
+(* implementation-shaped quadtree spec, printed as one JSON document per history with the result and the node    *)
+(* tree the spec predicts after each operation.  The harness replays each history into a real quadtree.Quadtree.  *)
 EXTENDS QuadtreeImpl, Json
 CONSTANT MaxOps
 PtsDef == << <<128,128>>, <<128,128>>, <<64,192>>, <<0,256>>, <<200,40>>, <<300,10>> >>
 VARIABLE hist
+\* the node tree after the operation as rows <<path code, pointer id>>; a path is coded as 1 followed by its child
+\* indices in base 4 (the root is 1)
+RECURSIVE PC(_)
+PC(pa) == IF pa = <<>> THEN 1 ELSE 4 * PC(SubSeq(pa, 1, Len(pa) - 1)) + pa[Len(pa)]
+TreeRows(ns) == {<<PC(pa), ns[pa]>> : pa \in DOMAIN ns}
 GNext == /\ nops < MaxOps
          /\ \/ \E k \in 1..Len(Pts) : Add(k) \/ RemoveByPoint(k)
             \/ \E id \in 1..(next-1) : RemoveById(id)
-         /\ hist' = Append(hist, [op |-> lastOp'.op, k |-> lastOp'.k, id |-> lastOp'.id, res |-> lastOp'.res])
+         /\ hist' = Append(hist, [op |-> lastOp'.op, k |-> lastOp'.k, id |-> lastOp'.id, res |-> lastOp'.res, tree |-> TreeRows(nodes')])
 GSpec == Init /\ hist = <<>> /\ [][GNext]_<<vars, hist>>
 Emit == nops < MaxOps \/ PrintT(ToJson([h |-> hist, pts |-> Pts]))
 =============================================================================
